@@ -344,3 +344,185 @@ Section Level.
         rewrite N_of_bits_cons. rewrite Nat2N.inj_succ, N.pow_succ_r'. lia.
   Qed.
 End Level.
+
+(* ---------------------------------------------------------------- the count of a SEQUENCE OF, separated from the elements *)
+Definition rec_id : ty -> params -> val -> est -> res est := fun _ _ _ s => Ok s.
+Lemma enc_elems_id e p' : forall l s, enc_elems rec_id e p' l s = Ok s.
+Proof. induction l as [|x l IH]; intros s; [reflexivity|]. cbn [enc_elems]. unfold rec_id at 1. cbn [bind]. apply IH. Qed.
+
+Lemma enc_seqof_factor rec e p l s :
+  encSequenceOf rec e p l s = do s1 <- encSequenceOf rec_id e p l s; enc_elems rec e (clear_size p) l s1.
+Proof.
+  unfold encSequenceOf. fold (enc_elems rec e (clear_size p)). fold (enc_elems rec_id e (clear_size p)).
+  match goal with |- (do x <- ?A; _) = _ => destruct A as [[[s0 ub0] sr0]| | |] end; cbn [bind]; try reflexivity.
+  match goal with |- (do x <- ?B; _) = _ => destruct B as [s2| | |] end; cbn [bind]; try reflexivity.
+  rewrite enc_elems_id. reflexivity.
+Qed.
+
+Lemma seqof_split rec e p l s bl pre lb ub :
+  p_sizeLB p = Some lb -> p_sizeUB p = Some ub -> slice_ok p (len l) = true ->
+  size_prefix (Z.to_N lb) (Some (Z.to_N ub)) (p_sizeExt p) (len l) (length bl) = XOk pre ->
+  small (bl ++ pre) -> repr s bl ->
+  exists s1, repr s1 (bl ++ pre) /\ encSequenceOf rec e p l s = enc_elems rec e (clear_size p) l s1.
+Proof.
+  intros Hlb Hub Hok Hx Hsm Hr.
+  destruct (seqof_emits rec_id e p l s bl pre [] lb ub Hlb Hub Hok Hx Hsm Hr) as (s1 & E1 & R1).
+  { intros s1 R1. rewrite enc_elems_id. apply emits_nil. exact R1. }
+  exists s1. rewrite app_nil_r in R1. split; [exact R1|]. rewrite enc_seqof_factor, E1. reflexivity.
+Qed.
+
+Lemma size_prefix_violation lb ub ext n pos :
+  ub < 65536 -> size_prefix lb (Some ub) ext n pos = XViolation -> ext = false /\ (n < lb \/ ub < n).
+Proof.
+  intros Hu H. unfold size_prefix, size_inroot in H. assert (ub <? 65536 = true) as Eu by lia. rewrite Eu in H.
+  destruct ((lb <=? n) && (n <=? ub)) eqn:Ein; cbn [negb] in H.
+  - exfalso. rewrite andb_false_r in H. destruct (lb =? ub); cbn [xbind] in H; [discriminate|].
+    destruct (cwn (ub - lb + 1) (n - lb) _) as [l| |] eqn:El; cbn [xbind] in H; try discriminate.
+    eapply cwn_not_violation; [| |exact El]; lia.
+  - rewrite andb_true_r in H. destruct ext.
+    + exfalso. destruct (lendet n (S pos)) as [l| |] eqn:El; cbn [xbind] in H; try discriminate. eapply lendet_not_violation; eauto.
+    + split; [reflexivity|]. lia.
+Qed.
+
+Theorem ref_all : forall n t, (ty_depth t <= n)%nat -> RefStmt t.
+Proof.
+  induction n as [|n IH]; intros t Hd; [pose proof (ty_depth_pos t); lia|].
+  unfold RefStmt. intros n1 n2 n3 n4 p v s bl av D1 D2 D3 D4 Ha Hs Hx Hr Hb.
+  destruct n1 as [|n1]; [pose proof (ty_depth_pos t); lia|]. destruct n2 as [|n2]; [pose proof (ty_depth_pos t); lia|].
+  destruct n3 as [|n3]; [pose proof (ty_depth_pos t); lia|]. destruct n4 as [|n4]; [pose proof (ty_depth_pos t); lia|].
+  destruct t as [| | | | | | |e|e|fs].
+  - eapply (leaf_refused TInt I); eauto.
+  - eapply (leaf_refused TEnum I); eauto.
+  - eapply (leaf_refused TBool I); eauto.
+  - eapply (leaf_refused TBits I); eauto.
+  - eapply (leaf_refused TOctets I); eauto.
+  - eapply (leaf_refused TString I); eauto.
+  - destruct v; discriminate.
+  - (* SEQUENCE OF *)
+    cbn [ty_depth] in *. destruct v; cbn [abs_f] in Ha; try discriminate. cbn [supr_f] in Hs. cbn [makeField].
+    destruct (all_some (map (abs_f n2 e (clear_size p)) l)) as [l'|] eqn:El; [|discriminate]. injection Ha as <-.
+    apply andb_true_iff in Hs. destruct Hs as [Hok Hsl].
+    pose proof Hok as Hok'. unfold slice_ok in Hok'.
+    destruct (p_sizeLB p) as [lb|] eqn:Elb; [|discriminate]. destruct (p_sizeUB p) as [ub|] eqn:Eub; [|discriminate].
+    apply andb_true_iff in Hok'. destruct Hok' as [Hcls Hroot]. bools.
+    cbn [t2a] in Hx. rewrite Elb, Eub, size_lb_some, size_ub_some in Hx by lia. rewrite x691_seqof in Hx.
+    assert (Hll : length l' = length l) by (rewrite (all_some_length _ _ El), map_length; reflexivity).
+    rewrite Hll in Hx. fold (len l) in Hx. rewrite asz_seqof in Hb.
+    destruct (size_prefix (Z.to_N lb) (Some (Z.to_N ub)) (p_sizeExt p) (len l) (length bl)) as [pre| |] eqn:Epre; cbn [xbind] in Hx; try discriminate.
+    + destruct (seqof_split (makeField n3) e p l s bl pre lb ub Elb Eub Hok Epre) as (s1 & R1 & ->); auto.
+      { unfold small. rewrite app_length. pose proof (size_prefix_len _ _ _ _ _ _ Epre). unfold SLACK in Hb. lia. }
+      eapply (elems_refused n IH e n1 n2 n3 n4 (clear_size p) bl); eauto; try lia.
+      pose proof (size_prefix_len _ _ _ _ _ _ Epre). lia.
+    + apply size_prefix_violation in Epre; [|lia]. destruct Epre as [Ext Hout]. unfold len in Hout.
+      destruct Hout as [Hlo|Hhi].
+      * eapply sequence_of_too_short_refused; eauto; lia.
+      * eapply sequence_of_too_long_refused; eauto; lia.
+  - (* pointer *)
+    cbn [ty_depth] in *. destruct v; cbn [abs_f] in Ha; try discriminate.
+    + eexists. reflexivity.
+    + cbn [supr_f] in Hs. cbn [t2a] in Hx. cbn [makeField]. eapply (IH e ltac:(lia) n1 n2 n3 n4); eauto; lia.
+  - (* struct *)
+    rewrite ty_depth_struct in *. destruct v as [| | | | | |vs| |]; cbn [abs_f] in Ha; try discriminate.
+    destruct (Nat.eqb (@length (string * params * ty) fs) (length vs)) eqn:Elen; cbn [negb] in Ha; [|discriminate].
+    apply Nat.eqb_eq in Elen. cbn [supr_f] in Hs. cbn [makeField]. unfold encStruct.
+    set (pre := if p_valueExt p then [false] else @nil bool).
+    assert (HE1 : emits (if p_valueExt p then putBitsValue s 0 1 else Ok s) bl pre).
+    { unfold pre. destruct (p_valueExt p).
+      - apply (put1_emits s bl false); auto. unfold small, SLACK in *. rewrite app_length. cbn [length]. lia.
+      - apply emits_nil. exact Hr. }
+    destruct HE1 as (s1 & E1' & R1). rewrite E1'. cbn [bind].
+    destruct (is_choice fs) eqn:Ech.
+    + (* CHOICE *)
+      apply andb_true_iff in Hs. destruct Hs as [Hco Hs]. unfold choice_ok in Hco. apply andb_true_iff in Hco. destruct Hco as [Hno Hco].
+      destruct (p_valueUB p) as [u|] eqn:Eu; [|discriminate]. bools.
+      destruct vs as [|[present| | | | | | | |] vr]; try discriminate.
+      apply andb_true_iff in Hs. destruct Hs as [Hp0 Hs].
+      cbn [negb]. rewrite opt_pass_false by exact Elen. cbn [bind]. change (0 <? 0) with false. cbv iota. normty.
+      destruct ((0 <? present)%Z && (present <? Z.of_nat (length fs))%Z) eqn:Erange.
+      2:{ (* Present = 0 or beyond the alternatives *)
+          destruct (present =? 0)%Z eqn:E0; [eexists; reflexivity|].
+          assert ((present >=? Z.of_nat (length fs))%Z = true) as -> by lia. eexists; reflexivity. }
+      bools.
+      destruct (nth_error fs (Z.to_nat present)) as [a|] eqn:Ea; [|discriminate].
+      destruct (nth_error (VInt present :: vr) (Z.to_nat present)) as [av'|] eqn:Eav; [|discriminate].
+      destruct (abs_f n2 (f_ty a) (f_params a) av') as [xx|] eqn:Exx; [|discriminate].
+      assert (Eop : p_openType p = false) by (destruct (p_openType p); [discriminate|reflexivity]). rewrite Eop in *.
+      injection Ha as <-.
+      cbn [t2a] in Hx. rewrite Ech, Eop, Eu in Hx. normty.
+      assert (Htl : length (tl fs) = (length fs - 1)%nat) by (destruct fs; cbn [tl length]; lia).
+      assert (Hcond : ((u + 1 =? Z.of_nat (length (tl fs))) && (0 <? u + 1))%Z = true) by lia. rewrite Hcond in Hx.
+      cbn [x691] in Hx. rewrite map_length in Hx.
+      match type of Hx with match nth_error ?LL ?KK with _ => _ end = _ =>
+        assert (Hnth : nth_error LL KK = Some (t2a n1 (f_ty a) (f_params a))) end.
+      { rewrite nth_error_map, nth_error_tl. replace (S (N.to_nat (Z.to_N (present - 1)))) with (Z.to_nat present) by lia.
+        normty. rewrite Ea. reflexivity. }
+      rewrite Hnth in Hx. normty.
+      assert (Nat.eqb (length (tl fs)) 1 = false) as E1 by (apply Nat.eqb_neq; lia). rewrite E1 in Hx. fold pre in Hx.
+      destruct (cwn (N.of_nat (length (tl fs))) (Z.to_N (present - 1)) (length bl + length pre)) as [ib| |] eqn:Eib; cbn [xbind] in Hx; try discriminate.
+      2:{ exfalso. eapply cwn_not_violation; [| |exact Eib]; lia. }
+      destruct (x691 (t2a n1 (f_ty a) (f_params a)) xx (length bl + length (pre ++ ib))) as [eb| |] eqn:Eeb; cbn [xbind] in Hx; try discriminate.
+      assert ((present =? 0)%Z = false) as -> by lia.
+      assert ((present >=? Z.of_nat (length fs))%Z = false) as -> by lia.
+      assert ((present <? 0)%Z = false) as -> by lia.
+      rewrite ?Ea, ?Eav. cbn [bind].
+      pose proof (cwn_len _ _ _ _ Eib) as Hibl. cbn [asz] in Hb.
+      assert (Hpl : (length pre <= 1)%nat) by (unfold pre; destruct (p_valueExt p); cbn; lia).
+      assert (Hidx : emits (appendChoiceIndex s1 present (p_valueExt p) (Some u)) (bl ++ pre) ib).
+      { replace present with (Z.of_N (Z.to_N (present - 1)) + 1)%Z at 1 by lia.
+        replace (Some u) with (Some (Z.of_N (N.of_nat (length (tl fs))) - 1)%Z) by (f_equal; lia).
+        apply choice_index_emits; auto; try lia.
+        - rewrite app_length. exact Eib.
+        - unfold small, SLACK in *. rewrite !app_length. lia. }
+      destruct Hidx as (s2 & E2 & R2). rewrite E2. cbn [bind].
+      pose proof (fdepth_nth _ _ _ Ea) as Hda.
+      eapply (IH (f_ty a) ltac:(lia) n1 n2 n3 n4 (f_params a) av' s2 ((bl ++ pre) ++ ib) xx); eauto; try lia.
+      * rewrite <- app_assoc, app_length. exact Eeb.
+      * rewrite !app_length. lia.
+    + (* SEQUENCE *)
+      apply andb_true_iff in Hs. destruct Hs as [Hcnt Hs].
+      change (match all_some (map (habs n2) (combine fs vs)) with Some cs => Some (AVSeq cs) | None => None end = Some av) in Ha.
+      destruct (all_some (map (habs n2) (combine fs vs))) as [cs|] eqn:Ecs; [|discriminate]. injection Ha as <-.
+      rewrite t2a_seq in Hx by exact Ech. rewrite x691_seq in Hx. rewrite map_length in Hx.
+      assert (Hcl : length cs = length fs).
+      { rewrite (all_some_length _ _ Ecs), map_length, combine_length. change (@length field) with (@length (string * params * ty)). lia. }
+      assert (Nat.eqb (length fs) (length cs) = true) as Ecl by (apply Nat.eqb_eq; change (@length field) with (@length (string * params * ty)) in *; lia).
+      change (@length field) with (@length (string * params * ty)) in *. rewrite Ecl in Hx. cbn [negb] in Hx. fold pre in Hx.
+      pose proof (typed_r (supr_f n4) (makeField n4) fs vs n2 fs vs cs 0 Ecs Hs) as HTo.
+      cbn [negb]. rewrite asz_seq in Hb.
+      assert (Hpl : (length pre <= 1)%nat) by (unfold pre; destruct (p_valueExt p); cbn; lia).
+      destruct (has_mnil fs vs) eqn:Emn.
+      { (* a nil pointer in a mandatory component *)
+        destruct (opt_pass_mnil fs vs 0 0 HTo Emn) as [err He]. rewrite He. cbn [bind]. eexists; reflexivity. }
+      pose proof (no_mnil_typed fs vs HTo Emn) as HT.
+      rewrite (opt_pass_true fs vs 0 0 HT) by lia. cbn [bind]. rewrite N.add_0_l, N.mul_0_l, N.add_0_l.
+      rewrite (bm_seq_bitmap fs n1 n2 fs vs cs HT Ecs) in Hx.
+      assert (Hbl : N.of_nat (length (bm fs vs)) = count_optional fs) by (apply bm_length; exact Elen).
+      assert (Hbml : (length (bm fs vs) <= length cs)%nat).
+      { rewrite <- (bm_seq_bitmap fs n1 n2 fs vs cs HT Ecs). apply seq_bitmap_len. }
+      assert (HE2 : emits (if 0 <? count_optional fs then putBitsValue s1 (N_of_bits (bm fs vs)) (count_optional fs) else Ok s1) (bl ++ pre) (bm fs vs)).
+      { destruct (0 <? count_optional fs) eqn:E0.
+        - rewrite <- (bits_of_N_of_bits (bm fs vs)) at 2. replace (length (bm fs vs)) with (N.to_nat (count_optional fs)) by lia.
+          apply putBitsValue_repr; auto; try lia.
+          + rewrite <- Hbl. apply N_of_bits_lt.
+          + replace (N.to_nat (count_optional fs)) with (length (bm fs vs)) by lia. rewrite bits_of_N_of_bits.
+            unfold small, SLACK in *. rewrite !app_length. lia.
+        - assert (length (bm fs vs) = O) by lia. destruct (bm fs vs); [|cbn in *; lia]. apply emits_nil. exact R1. }
+      destruct HE2 as (s2 & E2 & R2). rewrite E2. cbn [bind].
+      rewrite <- app_assoc in R2.
+      eapply (seq_loop_refused n IH fs vs cs n1 n2 n3 n4 bl ltac:(lia) ltac:(lia) ltac:(lia) ltac:(lia) ltac:(lia) Elen Ecs
+                  fs vs cs 0%nat (count_optional fs) (N_of_bits (bm fs vs)) 0 s2 (pre ++ bm fs vs)); eauto; try lia.
+      rewrite !app_length. lia.
+Qed.
+
+(* ---------------------------------------------------------------- the encoder entry point *)
+Theorem marshal_refuses t p v at' av :
+  tags_to_asn1 t p = Some at' -> abs t p v = Some av -> supr t p v = true ->
+  x691 at' av 0 = XViolation -> N.of_nat (asz av + SLACK) < LIM ->
+  exists e, marshal t p v = Err e.
+Proof.
+  intros Ht Ha Hs Hx Hb. unfold tags_to_asn1 in Ht. unfold abs in Ha. unfold supr in Hs. unfold marshal, marshal_fuel.
+  assert (Hat : t2a (S (ty_depth t)) t p = at') by (destruct (t2a (S (ty_depth t)) t p); congruence). subst at'.
+  destruct (ref_all (ty_depth t) t (le_n _) (S (ty_depth t)) (S (ty_depth t)) (S (ty_depth t)) (S (ty_depth t)) p v (mkest [] 0) [] av) as [e He]; auto.
+  - apply repr_init.
+  - exists e. rewrite He. reflexivity.
+Qed.
